@@ -163,3 +163,34 @@ func VfC02_Names() {
 // hEscMD spells a metadata name with every byte escaped (\XX), the form the
 // lexer accepts in bare metadata names.
 func hEscMD(s string) string { return hEsc(s) }
+
+// VfC02_DINodes: the fixpoint over each of the 28 specialised metadata node
+// kinds (minimal spellings, see hC17Kinds) and over every single-field
+// variation of each (a bool set, a string or integer field set, an enum
+// member chosen — variations generated from go/types, see zz_vf_c04_gen.go):
+// the varied node is printed by the library (input x), parsed, printed (y),
+// parsed and printed again (y' == y).  A field whose printed default differs
+// from the parser's default for an absent field breaks exactly this.
+//
+//vf:unwind 2000
+//vf:steps 400000000
+//vf:shards 14
+func VfC02_DINodes() {
+	k := vfChoice("kind", len(hC17Kinds))
+	src := "!nm = !{!3}\n!3 = " + hC17Kinds[k].text + "\n" +
+		"!6 = distinct !DIGlobalVariable(name: \"gg\", scope: !8, file: !9, line: 2, type: !8, isLocal: true, isDefinition: true)\n" +
+		"!7 = !{!3}\n!8 = !{}\n!9 = !DIFile(filename: \"a.c\", directory: \"/\")\n"
+	m, err := ParseString("k.ll", src)
+	if err != nil {
+		vfReach("C02.dinodes")
+		vfAssert("C02.dinodes.kind-accepted", false)
+		return
+	}
+	node := hC17Def(m, 3)
+	n := hMDNumVary(node)
+	v := vfChoice("variation", n+1)
+	if v > 0 {
+		hMDVary(node, v-1)
+	}
+	hC02Check(m.String())
+}
